@@ -104,6 +104,29 @@ func classifyRet(i int, d p9p.Dir, err error) (string, int) {
 	return "other", 0
 }
 
+// deadlineCtx ends like a context whose deadline has passed: Err() is context.DeadlineExceeded (which,
+// unlike context.Canceled, is a net.Error reporting a timeout).  No deadline is announced, so the
+// channel's connection deadlines stay what they are for other calls.
+type deadlineCtx struct {
+	context.Context
+	done chan struct{}
+	once sync.Once
+}
+
+func newDeadlineCtx() (context.Context, context.CancelFunc) {
+	c := &deadlineCtx{Context: context.Background(), done: make(chan struct{})}
+	return c, func() { c.once.Do(func() { close(c.done) }) }
+}
+func (c *deadlineCtx) Done() <-chan struct{} { return c.done }
+func (c *deadlineCtx) Err() error {
+	select {
+	case <-c.done:
+		return context.DeadlineExceeded
+	default:
+		return nil
+	}
+}
+
 func runCliScenario(sc cliScenario, run int, res *hx.Result) []cliEvent {
 	r := &cliRun{run: run, held: map[int]p9p.Tag{}, answered: map[int]bool{}, returned: map[int]bool{}, cancels: map[int]context.CancelFunc{}}
 	r.cond = sync.NewCond(&r.mu)
@@ -170,11 +193,20 @@ func runCliScenario(sc cliScenario, run int, res *hx.Result) []cliEvent {
 		}
 	}()
 	var wg sync.WaitGroup
-	start := func(i int) {
+	start := func(i int, expired bool) {
 		ctx, cancel := context.WithCancel(context.Background())
+		if i%2 == 0 {
+			// every other call's context ends the way a deadline does (Err() = context.DeadlineExceeded)
+			ctx, cancel = newDeadlineCtx()
+		}
 		r.mu.Lock()
 		r.cancels[i] = cancel
 		r.log(cliEvent{E: "start", I: i})
+		if expired {
+			// the call is issued with a context that has already ended
+			r.log(cliEvent{E: "cancel", I: i})
+			cancel()
+		}
 		r.mu.Unlock()
 		wg.Add(1)
 		go func() {
@@ -239,7 +271,7 @@ func runCliScenario(sc cliScenario, run int, res *hx.Result) []cliEvent {
 	if sc.Wrap > 0 {
 		// true 16-bit width: three calls stay unanswered while the allocator wraps around
 		for i := 1; i <= 3; i++ {
-			start(i)
+			start(i, false)
 		}
 		r.mu.Lock()
 		r.waitFor(2*time.Second, func() bool { return r.nreq >= 3 })
@@ -291,7 +323,7 @@ func runCliScenario(sc cliScenario, run int, res *hx.Result) []cliEvent {
 		}
 		switch st.A {
 		case "start":
-			start(st.I)
+			start(st.I, st.Kind == "expired")
 		case "await_req":
 			r.mu.Lock()
 			if !r.waitFor(await, func() bool { _, ok := r.held[st.I]; return ok }) {
